@@ -44,7 +44,8 @@ ASSUMPTIONS = ["scale part: exact real arithmetic (floats as reals); float part:
 
 def BOUNDS(tier):
     return ["genes toy, GA, GC (both builds): every region, per-position depths symbolic "
-            "reals in [0,1000]; neutral region of 3 positions; k in {2,3,5} and symbolic "
+            "reals in [0,1000]; profile rows symbolic > 0 (>= 0 for the first region of each "
+            "gene); neutral region of 3 positions; k in {2,3,5} and symbolic "
             "real k >= 1", "float lemma: all doubles in [1, 2^60] for the region sum and "
             "the neutral sum (one region, 1-position ranges)"]
 
@@ -100,7 +101,9 @@ def run_scale(cfg):
     base += [z3.And(v >= 0, v <= 1000) for v in cnv.values()]
     prow = {(gi, r): z3.Real(f"p_{gi}_{r}") for gi, gr in enumerate(gene.regions)
             for r in gr}
-    base += [v >= 0 for v in prow.values()]
+    # a zero profile row forks the path: allow it for the first region of each gene only
+    firsts = {(gi, next(iter(gr))) for gi, gr in enumerate(gene.regions)}
+    base += [(v >= 0) if key in firsts else (v > 0) for key, v in prow.items()]
     nv = z3.Real("neutral_value")
     base += [nv >= 0]
     if cfg["k"] == "sym":
@@ -175,11 +178,19 @@ def run_scale(cfg):
                  goals_spec, "spec"),
                 ("a k-fold deeper sample has identical region values", goals_inv, "inv"),
                 ("gene-only k-fold depth gives k-fold values", goals_lin, "lin")):
+            # one small non-linear query per region (the conjunction does not finish)
             t0 = time.time()
-            s_, mdl = eng.prove([], z3.And(goals or [z3.BoolVal(False)]))
-            ob(res, f"{tag}: {label}", s_, time.time() - t0)
-            if s_ == "sat":
-                report(res, cfg, mdl, depth, cnv, prow, nv, k, label)
+            worst, wm = "unsat", None
+            for g_ in (goals or [z3.BoolVal(False)]):
+                s_, mdl = eng.prove([], g_, timeout_ms=60000)
+                if s_ == "sat":
+                    worst, wm = "sat", mdl
+                    break
+                if s_ != "unsat":
+                    worst = "unknown"
+            ob(res, f"{tag}: {label}", worst, time.time() - t0, regions=len(goals))
+            if worst == "sat":
+                report(res, cfg, wm, depth, cnv, prow, nv, k, label)
         # self-profile: profile rows and neutral value are the sample's own sums
         selfh = [nv == nsum]
         for gi, gr in enumerate(gene.regions):
@@ -376,8 +387,8 @@ def run_float(cfg):
                 "exactly 2.0 in IEEE double arithmetic (all n, s in [1, 2^60])", st,
            time.time() - t0)
         if st == "sat" and mdl is not None:
-            nval = float(mdl.eval(n).as_string()) if hasattr(mdl.eval(n), "as_string") else 3.0
-            sval = float(mdl.eval(s).as_string()) if hasattr(mdl.eval(s), "as_string") else 3.0
+            nval = float(symx.model_value(mdl, z3.fpToReal(n)))
+            sval = float(symx.model_value(mdl, z3.fpToReal(s)))
             rp = {"kind": "float", "n": nval, "s": sval}
             okk, msg = replay(rp)
             res["stats"]["replays"] = 1
